@@ -207,27 +207,86 @@ func c03Exec(t map[string]any, idx int) map[string]any {
 					break
 				}
 			}
-			// release some space and hit the limit again
-			for i := 0; i < 3; i++ {
+			// punch holes all over the volume (every other file), then refill with files of mixed
+			// sizes until refusal: the allocator has to use the tail of the last group / cluster range
+			// while other space is still free
+			for i := 0; i < 4000; i += 2 {
 				calls++
-				fs.Remove(fmt.Sprintf("F%04d.bin", i))
+				if err := fs.Remove(fmt.Sprintf("F%04d.bin", i)); err != nil && i > 8 {
+					break
+				}
 			}
-			full2 := fillOnce("G")
+			sizes := []int{256 * 1024, 100 * 1024, 37 * 1024, 5 * 1024, 1024}
+			if size <= 1<<20 {
+				sizes = []int{9000, 3000, 1500, 512, 100}
+			}
+			full2 := false
+			misses := 0
+			for i := 0; i < 6000 && misses < len(sizes); i++ {
+				n := sizes[i%len(sizes)]
+				if err := write(fmt.Sprintf("G%04d.bin", i), fsx.Content(i, n), os.O_CREATE|os.O_RDWR); err != nil {
+					full2 = true
+					misses++ // try the smaller sizes too before giving up
+				} else {
+					misses = 0
+				}
+			}
+			// and once more with the smallest unit only
+			for i := 0; i < 3000; i++ {
+				if err := write(fmt.Sprintf("H%04d.bin", i), fsx.Content(i, 600), os.O_CREATE|os.O_RDWR); err != nil {
+					break
+				}
+			}
 			ev["full"] = full && full2
+		case "fillodd":
+			chunk := fsx.Content(5, []int{20000, 12000, 50000}[idx%3])
+			if size <= 1<<20 {
+				chunk = chunk[:1700]
+			}
+			if size > 24<<20 {
+				chunk = fsx.Content(5, 150001) // keep the number of files (and FAT rewrites) bounded on the 34..40 MiB volumes
+			}
+			n := 0
+			full := false
+			for ; n < 20000; n++ {
+				if err := write(fmt.Sprintf("f%05d", n), chunk, os.O_CREATE|os.O_RDWR); err != nil {
+					full = true
+					break
+				}
+			}
+			for i := 0; i < n; i += 2 {
+				calls++
+				fs.Remove(fmt.Sprintf("f%05d", i))
+			}
+			m, refused := 0, 0
+			for _, c := range []int{256 << 10, 100 << 10, 37 << 10, 5 << 10, 1 << 10} {
+				if size <= 1<<20 {
+					c /= 64
+				}
+				data := fsx.Content(6, c)
+				for ; m < 20000; m++ {
+					if err := write(fmt.Sprintf("g%05d", m), data, os.O_CREATE|os.O_RDWR); err != nil {
+						m++
+						refused++
+						break
+					}
+				}
+			}
+			ev["full"] = full && refused > 0
 		case "dirgrow":
 			calls++
 			fs.Mkdir("d")
-			for i := 0; i < 600; i++ {
+			for i := 0; i < c03DirGrow; i++ {
 				if err := write(fmt.Sprintf("d/a rather long file name number %04d %s.dat", i, strings.Repeat("n", i%30)), []byte{byte(i)}, os.O_CREATE|os.O_RDWR); err != nil {
 					ev["full"] = true
 					break
 				}
 			}
-			for i := 0; i < 600; i += 3 {
+			for i := 0; i < c03DirGrow; i += 3 {
 				calls++
 				fs.Remove(fmt.Sprintf("d/a rather long file name number %04d %s.dat", i, strings.Repeat("n", i%30)))
 			}
-			for i := 0; i < 200; i++ {
+			for i := 0; i < c03DirGrow/3; i++ {
 				if err := write(fmt.Sprintf("d/second round %04d.dat", i), fsx.Content(i, 100), os.O_CREATE|os.O_RDWR); err != nil {
 					break
 				}
@@ -266,6 +325,10 @@ func c03Exec(t map[string]any, idx int) map[string]any {
 	return finish()
 }
 
+// number of long-named files of the directory-growth workload (quick 160: about 20 FAT clusters /
+// several ext4 blocks of directory; thorough 600)
+var c03DirGrow = 160
+
 func randomBytes(seed int64, n int) []byte {
 	b := make([]byte, n)
 	x := uint64(seed)*0x9E3779B97F4A7C15 + 1
@@ -285,6 +348,9 @@ func C03(c *core.Ctx) {
 	if err != nil || !mc.OK {
 		c.Broken("Range MC: %v", err)
 		return
+	}
+	if c.Tier == "thorough" {
+		c03DirGrow = 600
 	}
 	var trace bytes.Buffer
 	var flat []map[string]any
@@ -316,20 +382,30 @@ func C03(c *core.Ctx) {
 			return
 		}
 		// quick: the expensive FAT32 / mid-size fills only at two starts
-		if c.Tier != "thorough" && str(t, "work") == "fill" && (str(t, "kind") == "fat32" || str(t, "size") == "mid") && (str(t, "start") == "s0" || str(t, "start") == "s1m") {
+		if c.Tier != "thorough" && (str(t, "work") == "fill" || str(t, "work") == "fillodd") && (str(t, "kind") == "fat32" || str(t, "size") == "mid") && (str(t, "start") == "s0" || str(t, "start") == "s1m") {
 			continue
 		}
 		tuples = append(tuples, t)
 	}
 	evs := make([]map[string]any, len(tuples))
-	parallel(len(tuples), func(i int) { evs[i] = c03Exec(tuples[i], i) })
+	t0 := time.Now()
+	durs := make([]time.Duration, len(tuples))
+	parallel(len(tuples), func(i int) { s := time.Now(); evs[i] = c03Exec(tuples[i], i); durs[i] = time.Since(s) })
+	if os.Getenv("C03_TIMING") != "" {
+		for i := range tuples {
+			if durs[i] > 5*time.Second {
+				fmt.Printf("C03 slow tuple %s: %v\n", js(tuples[i]), durs[i].Round(time.Second))
+			}
+		}
+		fmt.Printf("C03 part 1 (Range tuples): %v\n", time.Since(t0).Round(time.Second))
+	}
 	fills, full := 0, 0
 	outcomes := map[string]int{}
 	for i, ev := range evs {
 		add(ev)
 		c.Distinct("fs|" + js(tuples[i]))
 		outcomes[str(tuples[i], "work")+":"+str(ev, "res")]++
-		if str(tuples[i], "work") == "fill" || str(tuples[i], "work") == "oversize" {
+		if str(tuples[i], "work") == "fill" || str(tuples[i], "work") == "fillodd" || str(tuples[i], "work") == "oversize" {
 			fills++
 			if ev["full"] == true {
 				full++
